@@ -151,6 +151,7 @@ type dest struct {
 	calls    int
 	failAt   int
 	sticky   bool // a destination that broke stays broken: every later call fails too (a full or read-only disk)
+	failHeld bool // the held write fails once it is released (a background failure that lands late, e.g. after a cancel)
 	fired    string
 	complete map[string]bool // entries whose file was completely written and closed before any fault
 }
@@ -211,6 +212,14 @@ func (f *destFile) Write(p []byte) (int, error) {
 	big := len(p) >= 150*1024
 	if f.name == f.d.holdName && ((f.writes == 1 && !big) || f.writes == 2) {
 		f.d.ctl.pause("write@" + f.name)
+		if f.d.failHeld {
+			f.d.mu.Lock()
+			if f.d.fired == "" {
+				f.d.fired = "write " + f.name + " (held)"
+			}
+			f.d.mu.Unlock()
+			return 0, errDest
+		}
 	}
 	if err := f.d.tick("write " + f.name); err != nil {
 		return 0, err
@@ -232,9 +241,11 @@ type Case struct {
 	Hold     string  `json:"hold,omitempty"`
 	DestFail int     `json:"dest_fail,omitempty"`
 	// DestSticky: from the failing destination call on, every destination call fails (several background writers fail at once)
-	DestSticky bool     `json:"dest_sticky,omitempty"`
-	Openers    []Opener `json:"openers"`
-	Settle     int      `json:"settle_us"`
+	DestSticky bool `json:"dest_sticky,omitempty"`
+	// HoldFails: the held destination write fails when it is released (after whatever happened while it was parked)
+	HoldFails bool     `json:"hold_fails,omitempty"`
+	Openers   []Opener `json:"openers"`
+	Settle    int      `json:"settle_us"`
 }
 
 type openResult struct {
@@ -269,7 +280,7 @@ func checkInner(c Case) (string, string, stats) {
 	ctx, cancel := context.WithCancel(context.Background())
 	defer cancel()
 	rd := &blockReader{data: archive, cut: c.Cut, fault: c.Fault, ctl: ctl, cancel: cancel}
-	d := &dest{inner: subj.NewMem(), ctl: ctl, holdName: c.Hold, failAt: c.DestFail, sticky: c.DestSticky}
+	d := &dest{inner: subj.NewMem(), ctl: ctl, holdName: c.Hold, failAt: c.DestFail, sticky: c.DestSticky, failHeld: c.HoldFails && c.Hold != ""}
 	tfs, err := htar.NewReaderFS(ctx, rd, htar.ReaderFSOptions{UnarchiveFS: d})
 	if err != nil {
 		return "C13 constructor", err.Error(), st
@@ -324,7 +335,7 @@ func checkInner(c Case) (string, string, stats) {
 		cancel()
 		time.Sleep(time.Duration(c.Settle) * time.Microsecond)
 	}
-	if c.Fault != "none" || c.DestFail > 0 {
+	if c.Fault != "none" || c.DestFail > 0 || (c.HoldFails && c.Hold != "") {
 		st.faulted = true
 	}
 	// phase 2: openers racing the fault while writers may still be parked
@@ -346,7 +357,7 @@ func checkInner(c Case) (string, string, stats) {
 		return "C13 open-never-returns:" + c.Fault, fmt.Sprintf("an Open did not return although the stream has ended (fault=%s cut=%d destfail=%d)", c.Fault, c.Cut, c.DestFail), st
 	}
 	uerr := tfs.UnarchiveErr()
-	clean := c.Fault == "none" && (c.DestFail == 0 || d.fired == "")
+	clean := c.Fault == "none" && (c.DestFail == 0 || d.fired == "") && !(c.HoldFails && d.fired != "")
 	if c.Fault == "truncate" || c.Fault == "error" {
 		if !rd.parked {
 			clean = c.DestFail == 0 || d.fired == "" // the cut point lies beyond the archive: nothing happened
@@ -461,6 +472,7 @@ func TestStream(t *testing.T) {
 			}
 			if len(files) > 0 {
 				c.Hold = rapid.SampledFrom(files).Draw(rt, "holdname")
+				c.HoldFails = rapid.IntRange(0, 2).Draw(rt, "holdfails") == 0
 			}
 		}
 		c.Openers = genOpeners(rt, es)
